@@ -19,7 +19,7 @@
    The jobs are visited in source order, so the textual order IS the visiting order; every
    insertion position of the subject is enumerated.
 
-   tc = [lvl, hdr, subj, preds, pos, place, tools] *)
+   tc = [lvl, hdr, cfg, subj, preds, states, sstate, pos, place, tools] *)
 EXTENDS Naturals, Sequences, FiniteSets, TLC, Json
 
 CONSTANTS MaxPreds,      \* predecessors/successors per composition at job and step level
@@ -83,7 +83,22 @@ JobItems ==
     J("no-runs-on-default-shell", "runner-shell", {"pydefault"}, TRUE),
     J("labels-multi-ok", "runner-compat", {}, FALSE),
     J("steps-in-job-env", "steps", {}, FALSE),
-    J("needs-in-matrix", "needs", {}, FALSE) }
+    J("needs-in-matrix", "needs", {}, FALSE),
+    \* constructs whose diagnostics depend on the configuration file (self-hosted-runner.labels, config-variables)
+    J("label-selfhosted-misspelled", "runner-labels-config", {}, FALSE),
+    J("label-selfhosted-pattern", "runner-labels-config", {}, FALSE),
+    J("vars-config", "config-variables", {}, FALSE),
+    \* two actions that collide in an attribute other than their spec (same `name:` in the metadata, same directory
+    \* base name) but have different interfaces: pairs from the bundled table of popular actions and local actions
+    J("popular-same-name-1a", "action-metadata", {}, FALSE), J("popular-same-name-1b", "action-metadata", {}, FALSE),
+    J("popular-same-name-2a", "action-metadata", {}, FALSE), J("popular-same-name-2b", "action-metadata", {}, FALSE),
+    J("popular-same-name-3a", "action-metadata", {}, FALSE), J("popular-same-name-3b", "action-metadata", {}, FALSE),
+    J("local-action-same-name-a", "action-metadata", {}, FALSE), J("local-action-same-name-b", "action-metadata", {}, FALSE),
+    J("local-action-same-basename-a", "action-metadata", {}, FALSE), J("local-action-same-basename-b", "action-metadata", {}, FALSE) }
+
+\* entries that are also composed under the configuration file when AllHeaders is FALSE
+CfgItems == {"label-unknown", "labels-conflict", "labels-from-matrix", "labels-multi-ok", "label-selfhosted-misspelled",
+             "label-selfhosted-pattern", "vars-config", "github-event-deref"}
 
 StepItems ==
   { J("run", "none", {}, FALSE),
@@ -129,12 +144,12 @@ Places == {"earlier-step-run", "same-step-name", "job-env", "later-step-run"}
 Items(lvl) == CASE lvl = "job" -> JobItems [] lvl = "step" -> StepItems [] lvl = "expr" -> ExprItems
 
 ----------------------------------------------------------------------------
-VARIABLES lvl, hdr, subj, preds, pos, place, tc
-vars == <<lvl, hdr, subj, preds, pos, place, tc>>
+VARIABLES lvl, hdr, subj, preds, pos, place, cfg, tc
+vars == <<lvl, hdr, subj, preds, pos, place, cfg, tc>>
 
 None == J("", "", {}, FALSE)
-Vector(l, h, s, ps, p, pl) ==
-  ToJson([lvl |-> l, hdr |-> h, subj |-> s.n, preds |-> [i \in DOMAIN ps |-> ps[i].n],
+Vector(l, h, s, ps, p, pl, c) ==
+  ToJson([lvl |-> l, hdr |-> h, cfg |-> c, subj |-> s.n, preds |-> [i \in DOMAIN ps |-> ps[i].n],
           states |-> [i \in DOMAIN ps |-> ps[i].st], sstate |-> s.st, pos |-> p, place |-> pl,
           tools |-> s.tool])
 
@@ -143,7 +158,14 @@ HdrsFor(l, s, ps) ==
   ELSE IF AllHeaders THEN Headers
   ELSE {"push"} \cup s.hdrs \cup UNION {ps[i].hdrs : i \in DOMAIN ps}
 
-Init == /\ lvl = "" /\ hdr = "" /\ subj = None /\ preds = <<>> /\ pos = 0 /\ place = "" /\ tc = ""
+\* configuration file: "none", or "labels" = self-hosted-runner.labels [gpu-*, big-box] and config-variables [ALLOWED].
+\* Every SELF pair (the same construct repeated in an unrelated job: no "report once per workflow") gets both.
+CfgsFor(l, s, ps) ==
+  IF l # "job" THEN {"none"}
+  ELSE IF AllHeaders \/ s.n \in CfgItems \/ (\E i \in DOMAIN ps : ps[i].n \in CfgItems \/ ps[i].n = s.n) THEN {"none", "labels"}
+  ELSE {"none"}
+
+Init == /\ lvl = "" /\ hdr = "" /\ subj = None /\ preds = <<>> /\ pos = 0 /\ place = "" /\ cfg = "" /\ tc = ""
 
 \* choose level and subject; then grow the history one predecessor at a time; every state with at
 \* least one predecessor is a composition (for every header, insertion position and place)
@@ -151,22 +173,25 @@ ChooseSubject ==
   /\ lvl = ""
   /\ \E l \in Levels : \E s \in Items(l) :
        /\ lvl' = l /\ subj' = s
-       /\ UNCHANGED <<hdr, preds, pos, place, tc>>
+       /\ UNCHANGED <<hdr, preds, pos, place, cfg, tc>>
 AddPred ==
   /\ lvl # "" /\ hdr = ""
   /\ Len(preds) < (IF lvl = "expr" THEN 1 ELSE MaxPreds)
   /\ \E p \in Items(lvl) :
        /\ \A i \in DOMAIN preds : preds[i].n # p.n
-       /\ (lvl # "expr" => p.n # subj.n)
+       \* the subject's own construct may be repeated in an unrelated job / step as the ONLY other part
+       /\ (lvl # "expr" /\ p.n = subj.n) => preds = <<>>
+       /\ (lvl # "expr" /\ preds # <<>>) => preds[1].n # subj.n
        /\ preds' = Append(preds, p)
-       /\ UNCHANGED <<lvl, hdr, subj, pos, place, tc>>
+       /\ UNCHANGED <<lvl, hdr, subj, pos, place, cfg, tc>>
 Emit ==
   /\ lvl # "" /\ hdr = "" /\ preds # <<>>
   /\ \E h \in HdrsFor(lvl, subj, preds) :
      \E p \in (IF lvl = "expr" THEN {1} ELSE 0 .. Len(preds)) :
      \E pl \in (IF lvl = "expr" THEN Places ELSE {""}) :
-       /\ hdr' = h /\ pos' = p /\ place' = pl
-       /\ tc' = Vector(lvl, h, subj, preds, p, pl)
+     \E c \in CfgsFor(lvl, subj, preds) :
+       /\ hdr' = h /\ pos' = p /\ place' = pl /\ cfg' = c
+       /\ tc' = Vector(lvl, h, subj, preds, p, pl, c)
        /\ UNCHANGED <<lvl, subj, preds>>
 Next == ChooseSubject \/ AddPred \/ Emit
 Spec == Init /\ [][Next]_vars
@@ -175,5 +200,5 @@ Spec == Init /\ [][Next]_vars
 NamesUnique == \A l \in {"job", "step", "expr"} : \A a, b \in Items(l) : a.n = b.n => a = b
 ASSUME NamesUnique
 \* every composition keeps the subject apart from its history
-Separate == hdr # "" => (lvl = "expr" \/ \A i \in DOMAIN preds : preds[i].n # subj.n)
+Separate == hdr # "" => (lvl = "expr" \/ Len(preds) = 1 \/ \A i \in DOMAIN preds : preds[i].n # subj.n)
 =============================================================================
